@@ -56,7 +56,10 @@ class Check:
             print(msg)
 
     def saw(self, kind, item):
-        self.analysed.setdefault(kind, []).append(jsonable(item))
+        j = jsonable(item)
+        lst = self.analysed.setdefault(kind, [])
+        if j not in lst:
+            lst.append(j)
 
     def sample(self, item):
         if len(self.samples) < 40:
